@@ -44,6 +44,7 @@ func runC09(c *Ctx) {
 	c.rule("C09.10", func() { c09ValidatedIsSent(c) })
 	c.rule("C09.11", func() { c09NoUnsignedWrapInGuards(c) })
 	c.rule("C09.12", func() { c09CutsDrainedBeforeFinish(c) })
+	c.rule("C09.13", func() { c09CutsFromFoundPositions(c) })
 }
 
 func c09Flight(c *Ctx) {
@@ -651,7 +652,8 @@ func runC11(c *Ctx) {
 	c.Clause("C11.6 ShuffleQUICTransportParameters uses math/rand.Shuffle over the whole list with an element swap, or a Fisher–Yates loop drawing j from [0,i]")
 	c.Clause("C11.7 no function of this module calls the caching Len/Read of the spec's transport-parameter extension")
 	c.Clause("C11.8 PopulateFromUQUIC stores into the spec's parameter list only past the successful InitialSourceConnectionID assertion and the empty-value test")
-	c.NotCovered("byte equality with uTLS output; the statistical quality of the permutation beyond the algorithm's shape; fingerprint identifier values")
+	c.Clause("C11.9 in every built-in spec the set of frame types of the Initial flight is the same on every dial (a randomised PING count is never zero on some dials only): the reference fingerprinter hashes that set")
+	c.NotCovered("byte equality with uTLS output; the statistical quality of the permutation beyond the algorithm's shape; fingerprint identifier values (the identifiers recorded in the QUICIDs are not reproduced by the fingerprinter version pinned in go.mod, see findings/C11-fingerprint-not-stable)")
 	c.NotCovered("effectiveness of per-dial randomisation for a reused spec value (see C02 known findings)")
 
 	c.rule("C11.1", func() { c11Order(c) })
@@ -662,6 +664,7 @@ func runC11(c *Ctx) {
 	c.rule("C11.6", func() { c11Shuffle(c) })
 	c.rule("C11.7", func() { c11NoEarlyMarshal(c) })
 	c.rule("C11.8", func() { c11PlaceholderOnly(c) })
+	c.rule("C11.9", func() { c11FramePresenceDeterministic(c) })
 }
 
 func c11Order(c *Ctx) {
